@@ -12,6 +12,10 @@ CLAIMED = {
    technique="TLA+ module Versions.tla (Announce written as the code's scan; the property's clauses as invariants, TLC over all 14,400 configurations); real plugin binary alone and real Client/plugin pairs run on the case table; every observation judged by TLC (TraceVersions.tla)",
    text="TLC checks for every host set, plugin set, per-version wire protocol, gRPC factory and list/no-list combination over versions 0..3 that the code-shaped scan announces the highest common version (else the lowest), with that set's protocol, and that acceptance implies a version both sides have. The same cases are run on the real code: the plugin binary alone with raw PLUGIN_PROTOCOL_VERSIONS values (duplicates, unsorted, partly invalid, empty, absent) whose handshake line is parsed, and real Client/plugin pairs where NegotiatedVersion, the version tag of the stub the host built and the tag answered by the dispensed implementation in the plugin must all equal the highest common version, or Start must fail with the incompatible-version error and the process be gone. TLC judges each observation.",
    note="Versions range over 0..3; one plugin per set. Thorough enumerates all 225 set pairs (x3 random forms); quick all pairs with >= 2 common versions plus a sample."),
+ "C05": dict(cat="model_checking", design="§6 C05, §4.2",
+   technique="TLA+ Lifecycle.tla (FailedStartKills, KillPost, liveness FailedStartEndsProcess checked by TLC on every failing plan) + Handshake.tla for the rejected lines; call words from TLC's graph replayed on a real Client with a scripted runner and validated by TLC (TraceLifecycle.tla); real vplugin processes per failure cause x launch method judged by TLC (TraceStartFail.tla)",
+   text="TLC checks on Lifecycle.tla, for each way the launch can fail, that the runner is told to kill before Start returns, that the process eventually ends and that a later Kill leaves no runner and no socket directory. All call words up to length 5 read off TLC's state graph are executed on the real Client with an in-memory runner and the recorded traces (result, launch count, kill count, directory presence after every call) must be behaviours of the model. Real processes: for handshake-line classes that Handshake!Decide rejects (taken from TLC's table: each field invalid in turn, disallowed protocol, bad certificate, unsupported multiplexing) and for silence, half a line, early exit and closed stdout, launched by command and by custom runner, the pid must be gone within 1 s of Start returning its error, Kill must return within 1 s, report exited and remove the runner's directory.",
+   note="'Shortly after' is read as 1 s. Trusted: /proc as the process table, the scripted runner's fidelity to a dying process (pipes close, Wait returns)."),
  "C06": dict(cat="model_checking", design="§6 C06, §4.3",
    technique="TLA+ spec MuxBroker.tla checked by TLC; real brokers driven in a synctest bubble under a gate controller; every recorded trace validated by TLC against TraceMux.tla",
    text="TLC exhaustively checks routing, ack matching, close-once, no wedge and in-window success on MuxBroker.tla for small call sets (all interleavings, fully asynchronous and timed variants). The two real MuxBrokers are then driven through seeded call sets and schedules (controller-forced gate orders, holds, lag, walks through TLC's state graph) in virtual time, and each recorded event trace (hook points, call results, the token actually received on each accepted connection) must be a behaviour of the spec with all invariants holding at every step.",
@@ -20,6 +24,11 @@ CLAIMED = {
    technique="TLA+ spec MuxBroker.tla checked by TLC (incl. liveness); abusive histories replayed on the real brokers in a synctest bubble with forced schedules; traces validated by TLC; real-time watchdog for wedges",
    text="TLC checks on MuxBroker.tla that no reachable state has the expiry goroutine blocked under the broker lock, that every call returns (liveness under fairness, maximal-progress time) and that nothing is left waiting at the end of time, and confirms that the pre-fix variant of the model violates these. Histories of unmatched / duplicate / late / expiry-instant calls followed by a fresh pair are replayed on the real brokers with gates forcing the critical interleavings; a hang, a call that never returns, a goroutine left after Close, or a trace TLC rejects is a violation.",
    note="Trusted: yamux, net/rpc, synctest. The gRPC broker's liveness clauses are exercised by the C07/C08 drivers' timeout scenarios when those are built; this check decides the MuxBroker side."),
+
+ "C19": dict(cat="model_checking", design="§6 C19, §4.2",
+   technique="TLA+ Lifecycle.tla (LaunchAtMostOnce, NoLaunchAfterKill, KillPost; TLC exhaustive per plan, pre-fix variant must fail); all call words up to length 5 read off TLC's state graph replayed on a real Client with a scripted runner; traces validated by TLC (TraceLifecycle.tla); concurrent call mixes held to the property's invariants",
+   text="TLC explores every sequence of Start/Client/Protocol/ReattachConfig/ID/Exited/Kill calls (and plugin crashes) of bounded length for every outcome of the first launch and checks that the plugin is launched at most once, never again after Kill, and what each call returns. The call words are read off TLC's graph and executed on the real Client (custom runner with an in-memory process, an in-process RPC server when the launch succeeds); after every call the result class, the launch count, the runner kill count, pointer identity of address and protocol client, and the presence of the socket directory are logged, and TLC validates each trace against the model (process exit and the wait goroutine as silent steps). Two-goroutine mixes with a delayed handshake line are checked against the invariants (one launch, one directory, same address, same client) and for calls that never return.",
+   note="The custom-runner launch path with a scripted process; the command path is covered by C05's process cases. Thorough runs every word of length <= 5 for the fast plans."),
 }
 
 REASON_TODO = "no check has been built for this property yet in this round; it is planned (DESIGN.md §6) and is not claimed"
